@@ -49,7 +49,8 @@ MotifShapes ==
     {<<1,2>>, <<2,3>>, <<3,2>>, <<3,4>>, <<4,3>>, <<2,5>>},                      \* nested / touching cycles
     {<<1,2>>, <<2,3>>, <<3,2>>, <<2,4>>, <<3,4>>, <<4,6>>, <<2,5>>, <<5,6>>},    \* parallel SCC exits + competing branch
     {<<1,2>>, <<2,6>>, <<2,3>>, <<3,2>>, <<3,4>>, <<4,3>>},                      \* a cycle reachable only through a cycle
-    {<<1,2>>, <<1,3>>, <<2,4>>, <<3,4>>, <<4,5>>, <<5,6>>, <<4,6>>} }            \* diamond, then bridge, then split
+    {<<1,2>>, <<1,3>>, <<2,4>>, <<3,4>>, <<4,5>>, <<5,6>>, <<4,6>>},             \* diamond, then bridge, then split
+    {<<1,3>>, <<2,3>>, <<3,4>>, <<3,5>>, <<4,6>>, <<5,6>>} }                     \* two sources through a bridge NODE, branches merge again
 
 (***************************************************************************)
 (* Planted flows: superpositions of weighted source-to-sink routes.        *)
